@@ -2,6 +2,8 @@ import QuantemModel.Lemmas.Resample
 import QuantemModel.Lemmas.ResampleSpectral
 import QuantemModel.Lemmas.ResampleNd
 import QuantemModel.Lemmas.ResampleCalib
+import QuantemModel.Lemmas.ResampleReal
+import QuantemModel.Lemmas.ResampleArgs
 /-!
 C06 — binning, Fourier resampling, padding and cropping obey conservation laws.
 Theorems about `Model/Resample.lean` (the array and calibration arithmetic of
@@ -10,6 +12,7 @@ examples live here.
 -/
 namespace QuantemModel.Props.C06
 open QuantemModel QuantemModel.Nd QuantemModel.Dft QuantemModel.Resample Complex
+open QuantemModel.ResampleArgs
 
 /-! ### binning -/
 
@@ -375,6 +378,141 @@ theorem pad_smaller (out : Int) (n : ℕ) (h : out ≤ n) : padWidths out n = (0
   have h2 : (max 0 ((out - (n : Int) + 1) / 2)).toNat = 0 := by omega
   rw [h1, h2]
 
+/-! ### growth round 5: the real-input path in every direction, any padding mode, factor entry
+point, histories of bin calls, the argument layer and histories with raising calls -/
+
+/-- **N-D mean preservation as the code runs it on REAL arrays** (`isReal = true`: real part of the
+inverse transform, then the rescale), for every direction — up, down (where the complex result is
+not real: an unpaired Nyquist bin survives the crop) and mixed: the sum grows by exactly
+`N_out/N_in` and the mean is preserved. -/
+theorem resampleNd_mean_real (a : Arr (Cx ℝ)) (ha : WFArr a) (hr : IsRealArr a) (axes outs : List ℕ)
+    (hnd : axes.Nodup) (hl : axes.length = outs.length) (h : PairsOk a.shape (axes.zip outs))
+    (hv : ∀ ax ∈ axes, ax < a.shape.length) :
+    total (resampleNd a axes outs true)
+        = (((prod outs : ℕ) : ℂ) / ((prod (axes.map fun ax => a.shape.getD ax 1) : ℕ) : ℂ)) * total a ∧
+    total (resampleNd a axes outs true) / ((prod (resampleNd a axes outs true).shape : ℕ) : ℂ)
+        = total a / ((prod a.shape : ℕ) : ℂ) :=
+  ⟨total_resampleNd_real a ha hr axes outs h, mean_resampleNd_real a ha hr axes outs hnd hl h hv⟩
+
+/-- **N-D linearity on the real path**: `R(c·x + y) = c·R(x) + R(y)` for every REAL scalar `c`
+(`c.im = 0`) and arrays of equal shape (real or not), any axes, any direction — the `.real` step
+commutes with real linear combinations.  (Over complex scalars the law is `resampleNd_linear`, for
+the path complex dtypes take: the dtype, not the values, selects the path.) -/
+theorem resampleNd_linear_real (c : Cx ℝ) (hc : c.im = 0) (x y : Arr (Cx ℝ)) (axes outs : List ℕ)
+    (hs : x.shape = y.shape) (hx : WFArr x) (hy : WFArr y) (h : PairsOk x.shape (axes.zip outs)) :
+    resampleNd (linArr c x y) axes outs true
+      = linArr c (resampleNd x axes outs true) (resampleNd y axes outs true) :=
+  resampleNd_lin_real c hc x y axes outs hs hx hy h
+
+/-- **N-D identity on the real path** when the shape is unchanged. -/
+theorem resampleNd_identity_real (a : Arr (Cx ℝ)) (ha : WFArr a) (hr : IsRealArr a) (axes : List ℕ)
+    (hv : ∀ ax ∈ axes, ax < a.shape.length) (hne : prod (axes.map fun ax => a.shape.getD ax 1) ≠ 0) :
+    resampleNd a axes (axes.map fun ax => a.shape.getD ax 1) true = a := by
+  rw [resampleNd_real_eq]
+  · exact resampleNd_same a ha axes hv hne
+  · rw [resampleFold_same a ha]
+    · exact hr
+    · intro p hp
+      rw [List.zip_map_right] at hp
+      simp only [List.mem_map] at hp
+      obtain ⟨q, hq, rfl⟩ := hp
+      have hq' := List.of_mem_zip hq
+      have : q.1 = q.2 := by
+        have := List.mem_iff_getElem.mp hq
+        obtain ⟨i, hi, rfl⟩ := this
+        simp
+      exact ⟨hv _ hq'.1, by simp [this]⟩
+
+/-- **pad in ANY mode, then crop the pad widths, returns the original array (N-D)**: whatever rule
+fills the padding (`mode="constant"` with any `constant_values`, `"edge"`, `"wrap"`, `"reflect"`,
+`"symmetric"`, a function — everything `Dataset.pad` hands on to `np.pad` through `**kwargs`), the
+index expression `Dataset.crop` builds for `((before, -after), …)` is accepted and gives back the
+original array, for every shape, width list and element type. -/
+theorem pad_then_crop_any_mode {α : Type} [Inhabited α] (fill : List Nat → α) (a : Arr α) (w : List (Nat × Nat))
+    (hw : w.length = a.shape.length) (ha : a.data.length = prod a.shape) :
+    ∃ p, plan (padNdWith fill a w).shape (cropIxOfPad w) = .ok p ∧ applyPlan (padNdWith fill a w) p = a := by
+  refine ⟨_, plan_crop_of_pad a.shape w hw, ?_⟩
+  exact pad_crop_nd_with fill a w hw ha
+
+/-- the modes that read the padding from the array (`edge`, `wrap`, `reflect`, `symmetric`, as
+modelled by `padNdRule` and compared with `np.pad` on every run) are instances. -/
+theorem pad_rule_then_crop {α : Type} [Inhabited α] (r : PadRule) (a : Arr α) (w : List (Nat × Nat))
+    (hw : w.length = a.shape.length) (ha : a.data.length = prod a.shape) :
+    ∃ p, plan (padNdRule r a w).shape (cropIxOfPad w) = .ok p ∧ applyPlan (padNdRule r a w) p = a :=
+  pad_then_crop_any_mode _ a w hw ha
+
+/-- **the `factors=` entry point preserves the extent exactly**: whatever factor is requested and
+however `round(n·f)` falls (ties to even, clamped to 1), the realised length `m = max(1, round(n·f))`
+is `≥ 1` and the new sampling satisfies `m·s' = n·s` — because the calibration uses the realised
+ratio `m/n`, not the requested factor. -/
+theorem resample_extent_factors (o s q : Rat) (n : Nat) (hn : 0 < n) :
+    0 < (outLen n q).toNat ∧
+    (((outLen n q).toNat : Nat) : Rat) * (resampleMeta o s n (outLen n q).toNat).2 = (n : Rat) * s := by
+  have h1 : 1 ≤ outLen n q := by unfold outLen; omega
+  have h2 : 0 < (outLen n q).toNat := by omega
+  exact ⟨h2, resample_extent o s n _ hn h2⟩
+
+/-- **block-centre coordinates over a HISTORY of bin calls**: after binning one axis by the
+factors `fs` in turn (any number of calls, each factor `≥ 1`), the calibration is the one of a
+single binning by the product `F = Π fs`, so pixel `j` sits at the mean coordinate of the `F`
+original pixels it covers and the sampling is `F·s`. -/
+theorem bin_history_coords (o s : Rat) (fs : List Nat) (hf : ∀ f ∈ fs, 0 < f) (j : Nat) :
+    let c := fs.foldl (fun (p : Rat × Rat) f => binMeta p.1 p.2 f) (o, s)
+    let F : Nat := fs.foldl (· * ·) 1
+    c.2 = s * (F : Rat) ∧
+    c.1 + (j : Rat) * c.2 = (∑ i ∈ Finset.range F, (o + (((j * F + i : Nat) : Rat)) * s)) / (F : Rat) := by
+  intro c F
+  have hc : c = binMeta o s F := binMeta_foldl fs o s
+  have hF : 0 < F := by
+    have gen : ∀ (l : List Nat) (k : Nat), 0 < k → (∀ f ∈ l, 0 < f) → 0 < l.foldl (· * ·) k := by
+      intro l
+      induction l with
+      | nil => intro k hk _; exact hk
+      | cons f t ih =>
+        intro k hk h
+        exact ih (k * f) (Nat.mul_pos hk (h f (by simp))) (fun g hg => h g (by simp [hg]))
+    exact gen fs 1 Nat.one_pos hf
+  rw [hc]
+  exact bin_coords o s F hF j
+
+/-- **a call that raises is a no-op on the object, over every history**: for any sequence of
+`bin / crop / pad / fourier_resample` calls on one dataset, in any argument form, raising or not,
+the final state is the state reached by running only the calls that returned normally (and running
+those again, none of them raises). -/
+theorem rejected_calls_are_noops (d : Dataset.Ds) (cs : List Call) :
+    runObj d cs = runObj d (okCalls d cs) ∧ okCalls d (okCalls d cs) = okCalls d cs :=
+  ⟨runObj_okCalls cs d, okCalls_none_raise cs d⟩
+
+/-- one raising call leaves array and calibration as they were -/
+theorem rejected_call_keeps_object (d : Dataset.Ds) (c : Call) (h : raises d c = true) : stepObj d c = d :=
+  stepObj_of_raises h
+
+/-- **the forms of the `axes` argument agree**: `a`, `float(a)`, `(a,)`, `[a]`, `(np.int64(a),)`,
+`(float(a),)` select the same axis (or raise the same error), `None` selects all axes in order, and
+a negative axis counts from the end. -/
+theorem axes_forms_agree (nd : Nat) :
+    (∀ a : Int,
+      normalizeAxes nd (.sc (.float (a : Rat))) = normalizeAxes nd (.sc (.int a)) ∧
+      normalizeAxes nd (.tuple [.int a]) = normalizeAxes nd (.sc (.int a)) ∧
+      normalizeAxes nd (.list [.int a]) = normalizeAxes nd (.sc (.int a)) ∧
+      normalizeAxes nd (.tuple [.npInt a]) = normalizeAxes nd (.sc (.int a)) ∧
+      normalizeAxes nd (.tuple [.float (a : Rat)]) = normalizeAxes nd (.sc (.int a))) ∧
+    normalizeAxes nd (.sc .none) = .ok (List.range nd) ∧
+    (∀ a : Nat, a < nd → axisOf nd (.int ((a : Int) - nd)) = .ok a ∧ axisOf nd (.int a) = .ok a) :=
+  ⟨fun a => normalizeAxes_scalar_forms nd a, rfl, fun a h => axisOf_negative nd a h⟩
+
+/-- **the keyword defaults of `bin`**: `ds.bin(f)` is `ds.bin(f, axes=None, modify_in_place=False,
+reducer="sum")`, i.e. the block SUM over ALL axes returned as a NEW dataset; the reducer name is
+matched without regard to letter case. -/
+theorem bin_defaults (d : Dataset.Ds) (f : Py) :
+    callBin d { factors := f }
+      = Dataset.bin d (facArgOf f) (.many ((List.range d.ndim).map Int.ofNat)) false false false ∧
+    reducerOf (.str "SUM") = some false ∧ reducerOf (.str "Mean") = some true ∧
+    reducerOf (.str "median") = none ∧ reducerOf .none = none := by
+  refine ⟨?_, by with_unfolding_all rfl, by with_unfolding_all rfl, by with_unfolding_all rfl, rfl⟩
+  have h : reducerOf (.str "sum") = some false := by with_unfolding_all rfl
+  simp only [callBin, h, normalizeAxes, axesArg]
+
 /-! ### non-vacuity -/
 
 example : freqMap 4 7 = [some 0, some 1, none, none, none, some 2, some 3] := by decide
@@ -408,5 +546,19 @@ example : NoNyquist [(⟨3, 0⟩ : Cx ℝ), ⟨3, 0⟩] := by
 example : PairsOk [3, 4] ([0, 1].zip [5, 2]) ∧ UpOk [3, 4] [(1, 6), (0, 3)] ∧
     downPairs [3, 4] [(1, 6), (0, 3)] = [(0, 3), (1, 4)] := by
   simp [PairsOk, UpOk, downPairs]
+
+-- growth round 5: hypotheses satisfiable / definitions compute
+example : padAxisSrc .reflect 4 2 0 = 2 ∧ padAxisSrc .symmetric 4 2 0 = 1 ∧ padAxisSrc .edge 4 2 0 = 0 ∧
+    padAxisSrc .wrap 4 2 0 = 2 ∧ padAxisSrc .reflect 1 3 0 = 0 := by decide
+example : (padNdRule .edge (⟨[3], [1, 2, 3]⟩ : Arr Int) [(2, 1)]).data = [1, 1, 1, 2, 3, 3] := by decide
+example : outLen 7 (1 / 2) = 4 ∧ outLen 5 (1 / 2) = 2 ∧ outLen 1 (1 / 4) = 1 :=
+  ⟨by with_unfolding_all rfl, by with_unfolding_all rfl, by with_unfolding_all rfl⟩
+example : [2, 3].foldl (fun (p : Rat × Rat) f => binMeta p.1 p.2 f) (0, 1) = binMeta 0 1 6 := by
+  simp [binMeta]; norm_num
+example : ∃ d : Dataset.Ds, ∃ c : Call, raises d c = true :=
+  ⟨default, .bin { factors := .sc (.int 2), reducer := .str "median" }, by with_unfolding_all rfl⟩
+example : normalizeAxes 3 (.tuple [.int (-1), .npInt 0]) = .ok [2, 0] := by decide
+example : IsRealArr (⟨[2], [⟨1, 0⟩, ⟨2, 0⟩]⟩ : Arr (Cx ℝ)) := by
+  intro z hz; simp at hz; rcases hz with rfl | rfl <;> rfl
 
 end QuantemModel.Props.C06
